@@ -20,9 +20,6 @@ package x01
 import (
 	"context"
 	"fmt"
-	"math/rand"
-	"net"
-	"os"
 	"sort"
 	"strings"
 	"sync/atomic"
@@ -30,9 +27,9 @@ import (
 	"testing/synctest"
 	"time"
 
+	"github.com/libp2p/go-libp2p"
 	pubsub "github.com/libp2p/go-libp2p-pubsub"
 	pb "github.com/libp2p/go-libp2p-pubsub/pb"
-	"github.com/libp2p/go-libp2p"
 	"github.com/libp2p/go-libp2p/core/host"
 	"github.com/libp2p/go-libp2p/core/network"
 	"github.com/libp2p/go-libp2p/core/peer"
@@ -78,7 +75,7 @@ func gi(m M, k string) int {
 	}
 	return 0
 }
-func gb(m M, k string) bool { b, _ := m[k].(bool); return b }
+func gb(m M, k string) bool  { b, _ := m[k].(bool); return b }
 func gl(m M, k string) []any { l, _ := m[k].([]any); return l }
 
 func hostIP(h host.Host) string {
@@ -500,7 +497,3 @@ func TestX01Node(t *testing.T) {
 	}
 	marker(-1)
 }
-
-var _ = rand.Seed
-var _ = net.IPv4len
-var _ = os.Getenv
